@@ -53,6 +53,7 @@ type Report struct {
 	Stubs           map[string]int
 	UnwindHits      int
 	IfConverted     int
+	QuickSat        int
 	Solver          sym.Stats
 	Inputs          []InputRec
 	Samples         []string
